@@ -167,7 +167,7 @@ class Gen:
             return s + "}"
         if k == 10:
             self.use("FString")
-            if "fmt-fstring-escape" in risky:
+            if "fmt-fstring-escape" in risky and self.chance(0.4):
                 return self.pick(['f"a\\"b{x}"', 'f"{{x}} {y}"', 'f"p\\\\q{z}"', "f\"{d['k']}\"", 'f"l\\n{x}"'])
             parts = []
             for _ in range(self.r.randrange(0, 4)):
@@ -618,8 +618,8 @@ class Gen:
         if k == "docstring":
             j = self.r.randrange(4)
             self.use("Docstring%d" % j)
-            if "fmt-docstring-escape" in risky:
-                return [self.pick(['"""a \\\\ b"""', '"ends with quote\\""'])]
+            if "fmt-docstring-escape" in risky and self.chance(0.4):
+                return [self.pick(['"""a \\\\ b"""', '"ends with quote\\""', '"""a\\\\nb"""', '"say \\"\\"\\"triple\\"\\"\\" inside"'])]
             return [['"""Module doc."""'], ['"""', "Multi-line", "", "  indented text", '"""'], ['""""""'], ['"  padded  "']][j]
         if k in ("model", "class"):
             self.use(k)
@@ -689,7 +689,7 @@ class Gen:
         return out + [head] + self.block(3, 4, risky)
 
 
-RISKY = ["fmt-closure", "fmt-if-expr", "fmt-guard", "fmt-fstring-escape", "fmt-docstring-escape", "fmt-compound-desugar"]
+RISKY = ["fmt-compound-desugar"]
 
 
 def program(rng, n_decls, p_risky=0.25):
@@ -730,8 +730,13 @@ FIXED = {
     "fmt-newtype-methods": "c4e878d",
     "fmt-bytes-escape": "543f05e",
     "fmt-arm-trailing-space": "1dd50aa",
-    "fmt-double-newline": "53275b0"
-}   # finding id -> `fix:` commit on branch fix-c08 of /repo
+    "fmt-double-newline": "53275b0",
+    "fmt-closure": "09e97de",
+    "fmt-docstring-escape": "34cdd80",
+    "fmt-guard": "581b86c",
+    "fmt-fstring-escape": "d511c20",
+    "fmt-if-expr": "61b9fa1"
+}   # finding id -> `fix:` commit (the last five: branch fix-c08c of /repo, to be remapped after cherry-pick)
 
 
 def _kf(prop, fid, cls, witness, summary, why, fix):
@@ -807,8 +812,8 @@ PROPOSED_C09 = [
     _kf("C09", "fmt-arm-trailing-space", "one line ending in \"=> \" per match arm whose body is a block",
         "def f(n: int) -> int:\n    match n:\n        case 0:\n            return 1\n        _ => 0\n", "block-bodied match arms are printed `pattern => ` + newline: trailing whitespace",
         "fix candidate", "yes: write \" =>\" and add the space only before an expression body"),
-    _kf("C09", "fmt-not-reparsable", "the file contains a construct of one of C08's listed open classes whose printed form does not re-parse or re-parses differently (fmt-closure, fmt-if-expr, fmt-guard, fmt-fstring-escape, fmt-docstring-escape, fmt-compound-desugar, fmt-match-operand, fmt-float-nonfinite)",
-        "def f(n: int) -> int:\n    match n:\n        case k if k > 0: return 1\n        _ => 0\n", "fmt(fmt(x)) is an error / differs and `--check` after `fmt` fails exactly when fmt(x) is outside the parser's language (inherits C08's findings; an `if` expression also leaves a trailing blank)",
+    _kf("C09", "fmt-not-reparsable", "the file contains a construct of one of C08's listed open classes whose printed form does not re-parse or re-parses differently (fmt-compound-desugar, fmt-match-operand, fmt-float-nonfinite)",
+        "def f() -> None:\n    match a:\n        b => 1\n    -1\n", "fmt(fmt(x)) is an error / differs and `--check` after `fmt` fails exactly when fmt(x) is outside the parser's language (inherits C08's open findings, all rooted in the parser)",
         "see the C08 entries", "see the C08 entries"),
 ]
 
@@ -1093,6 +1098,8 @@ def gather(chk, binary):
             items.append(("risky:%s:%d" % (r, j), "\n".join(g.decl(kind, (r,))) + "\n"))
             used |= g.used
     items += literal_sweep(chk.tier)
+    # the witness of every repaired finding stays in the run as a regression input
+    items += [("regress:%s" % f["id"], f["witness"]) for f in PROPOSED_C08 + PROPOSED_C09 if f["status"] == "fixed"]
     cfgs = [{}] * len(items)
     for o, src, c in scale_sweep(chk.tier):
         items.append((o + (":cfg=%s" % json.dumps(c, sort_keys=True) if c else ""), src))
@@ -1143,17 +1150,8 @@ def judge_c09(d, known, c08_known):
     if h["lexed"]:
         if h["tabs"]:
             out.append("tab outside string contents: %r" % h["bad_line"])
-        want_tr = d["if_exprs"]
-        # only MORE trailing blanks than the listed class explains is a violation (an if-expression
-        # whose `if ` happens not to end a line leaves none)
-        if h["trailing"] > want_tr:
-            out.append("%d line(s) with trailing whitespace outside strings (the listed classes account for %d): %r" % (h["trailing"], want_tr, h["bad_line"]))
-        elif h["trailing"]:
-            if d["if_exprs"]:
-                if inherited:
-                    hits.add("fmt-not-reparsable")
-                else:
-                    out.append("trailing whitespace after `if`: %r" % h["bad_line"])
+        if h["trailing"]:      # no listed class leaves trailing blanks any more (if-expressions are printed in block form)
+            out.append("%d line(s) with trailing whitespace outside strings: %r" % (h["trailing"], h["bad_line"]))
     elif not inherited:
         out.append("formatted text does not lex")
     if h["final_newlines"] != 1:
@@ -1509,6 +1507,36 @@ def bytes_tie(chk, binary, res):
     return bad, len(lists)
 
 
+def text_tie(chk, binary, res):
+    """Fmt/Text.v `escape_text` vs the text the real formatter writes for an f-string literal part."""
+    inter = [10, 13, 9, 92, 34, 123, 125, 39, 97, 32, 233, 0x65E5]
+    lists = [[c] for c in inter] + [[a, b] for a in inter for b in inter] + [[123, 120, 125, 34, 92, 110]]
+    spell = {10: "\\n", 13: "\\r", 9: "\\t", 92: "\\\\", 34: '\\"', 123: "{{", 125: "}}"}      # source spelling, written independently
+    srcs = ["".join("def g%d(x: int) -> str:\n    return f\"%s{x}\"\n" % (i + j, "".join(spell.get(c, chr(c)) for c in cs)) for j, cs in enumerate(lists[i:i + 40]))
+            for i in range(0, len(lists), 40)]
+    real = []
+    for r in run_decls(binary, srcs, text=True):
+        if r.get("parse") != "ok":
+            raise vlib.Infra("text tie: generated source does not parse: %s" % r.get("parse"))
+        for d in r["decls"]:
+            t = d["text"].rstrip("\n")
+            real.append(t[t.index('f"') + 2:-len('{x}"')])
+    if not vlib.coq_build(["Fmt/Text.vo"])[0]:
+        res["tie_ok"] = False
+        res["broken"].append({"what": "model", "message": "Fmt/Text.v does not build"})
+        return [], 0
+    req = "From Coq Require Import ZArith List.\nImport ListNotations.\nFrom Verif Require Import Fmt.Text.\nOpen Scope Z_scope."
+    got = vlib.coq_eval(req, "list Z", "escape_text", [vlib.zlist(cs) for cs in lists], shard=200, tag="c08text")
+    bad = []
+    for cs, g, t in zip(lists, got, real):
+        chk.count_case(("text-tie", tuple(cs)), nontrivial=True)
+        m = "".join(chr(c) for c in g)
+        if m != t:
+            bad.append({"source": 'def g(x: int) -> str:\n    return f"%s{x}"\n' % "".join(spell.get(c, chr(c)) for c in cs),
+                        "why": "Fmt/Text.v escape_text and the formatter disagree on an f-string literal part", "model": m, "impl": t})
+    return bad, len(lists)
+
+
 # ------------------------------------------------------------------------------------------ run / replay
 def witness_fails_c08(f, r):
     known = {f["id"]}
@@ -1546,6 +1574,9 @@ def run(chk):
     b_bad, n_bt = bytes_tie(chk, binary, res)
     corr_bad += b_bad
     n_tie += n_bt
+    t_bad, n_tt = text_tie(chk, binary, res)
+    corr_bad += t_bad
+    n_tie += n_tt
     missing = [t for t in EXPECTED_TAGS if t not in tags]
     chk.coverage["rule"] = ("one evaluation per top-level declaration of every corpus file (%d files) and of every generated program; non-trivial = the "
                             "declaration carries no finding class or round-trips after the listed transformation; plus one per tie case" % len([1 for o, _, _ in items if o.startswith("file:")]))
